@@ -1043,3 +1043,40 @@ def frame_forward_exact(cx, iid):
                         inst.violation(b.path, "Active arm without forwarding", "%s::%s can leave its Active arm without handing the frame to the half connection" % (side.split("::")[-1], h), at=b.span_at(loc))
             if not hit:
                 inst.violation(b.path, "Active arm", "no Active arm found in %s (anchor)" % h)
+
+
+def half_connection_accept_exact(cx, iid):
+    """T1x: what the half connection does with a frame depends on the frame only through the reviewed acceptance
+    tests: a data frame's datagrams are processed iff its id lies in the frame receive window; a sync frame's ids are
+    applied iff present; an ack frame's window bases and groups are always handed on (their own validation happens in
+    PacketSender::acknowledge / FrameQueue, C11.r / C11.m / C15).  Any further condition on the frame at these call
+    sites is a refusal nobody reviewed (an ack "fast path", a size heuristic, ...)."""
+    R = cx.R
+    HCp = "half_connection::HalfConnection::"
+    WC = r"FrameAckQueue::window_contains\(arg1\.frame_ack_queue,arg2\.sequence_id\)"
+    table = [
+        ("handle_data_frame", "PacketReceiver::handle_datagram", [WC]),
+        ("handle_data_frame", "FrameAckQueue::mark_seen", [WC]),
+        ("handle_sync_frame", "PacketReceiver::resynchronize", [r"is\(arg2\.next_(frame|packet)_id,(Some|None)\)"]),
+        ("handle_sync_frame", "FrameAckQueue::resynchronize", [r"is\(arg2\.next_(frame|packet)_id,(Some|None)\)"]),
+        ("handle_ack_frame", "PacketSender::acknowledge", []),
+        ("handle_ack_frame", "FrameQueue::acknowledge_group", []),
+        ("handle_ack_frame", "FrameQueue::advance_transfer_window", []),
+    ]
+    with cx.instance(iid, "T1x EXACT-GUARD", "the half connection's frame handlers condition their processing calls on the frame only through the reviewed acceptance tests", floor=7) as inst:
+        for fn, callee, allowed in table:
+            b = R.body(HCp + fn)
+            fa = cx.fa(b)
+            sites = list(b.calls(callee))
+            if not sites:
+                inst.violation(b.path, callee, "%s no longer calls %s (anchor)" % (fn, callee))
+                continue
+            for loc, t in sites:
+                inst.site(b, loc, "%s -> %s" % (fn, callee.split("::")[-1]))
+                for alt in fa.at(loc) or []:
+                    for lit in sorted(alt):
+                        if "<=>" in lit or ":=" in lit or not re.search(r"\barg2\b", lit):
+                            continue
+                        if not any(re.fullmatch(a, lit) for a in allowed):
+                            inst.violation(b.path, "%s conditioned on the frame" % callee.split("::")[-1],
+                                           "%s calls %s only under `%s`: a condition on the frame that is not one of the reviewed acceptance tests" % (fn, callee, lit[:140]), at=b.span_at(loc))
